@@ -45,8 +45,12 @@ type script struct {
 type target struct {
 	host string
 	cred string
+	url  string
 	raw  *bed.RawStub
 	h2   *bed.Stub
+	// resets counts EndpointInfo.ResetTransport() calls made on this target's endpoint (only the case that holds the
+	// test bed touches it)
+	resets int
 }
 
 type testbed struct {
@@ -138,6 +142,7 @@ func newTestbed(idx int, withH2 bool) (*testbed, error) {
 		} else {
 			url = t.h2.URL
 		}
+		t.url = url
 		obj := bed.BuildCluster(bed.ClusterSpec{Name: t.host, Servers: []string{url}, Token: t.cred})
 		if sr := tb.gw.Apply(obj); sr.Err != nil || sr.Panic != nil || sr.Requeue {
 			return tb, fmt.Errorf("controller did not apply cluster %s: %+v", t.host, sr)
@@ -552,7 +557,8 @@ func TestCheck(t *testing.T) {
 		r.Rule("each case = (authenticated identity over pools of hostile names/groups/extra keys and values incl. UTF-8, %, blanks, 300-byte and control-byte strings) x " +
 			"(credential presentation: bearer / second channel + client Authorization / duplicated Authorization / none / unknown / wrong scheme) x " +
 			"(impersonation family: none, user, +groups, +extras, service account, anonymous, groups/extras without user, empty user value, two user values, empty-then-name) x " +
-			"(0-2 other Impersonate-* headers: Uid, Foo, Extra without dash, ...) x random header casing/order/optional blanks x (allow/deny/no-opinion/error per requested attribute) x (proxy | upgrade path). " +
+			"(0-2 other Impersonate-* headers: Uid, Foo, Extra without dash, ...) x random header casing/order/optional blanks x (allow/deny/no-opinion/error per requested attribute) x (proxy | upgrade path) x " +
+			"(history: the endpoint transport of one cluster per gateway is rebuilt with EndpointInfo.ResetTransport() before ~1/250 of its cases, as the health checker does for a hung transport). " +
 			"Sent byte-exact over a raw socket through the real handler chain; decided on the header lines a raw stub upstream received. " +
 			"Non-trivial = the request carries any identity-bearing client header beyond one well-formed bearer token, or the identity needs escaping; distinct = hash of the wire request head and script.")
 		r.Assume("the authenticator and authorizer are the harness' scripted ones; what the authenticator returned is recorded at that boundary and is 'the identity the gateway authenticated'")
@@ -610,14 +616,55 @@ func TestCheck(t *testing.T) {
 			r.Require(r.Counter("not_forwarded_unauthenticated") >= int64(n/40), "too few unauthenticated requests")
 			r.Require(r.Counter("forwarded_upgrade") >= int64(n/60), "too few upgrade-path requests were forwarded")
 			r.Require(r.Counter("authorizer_calls") >= int64(n/4), "the scripted authorizer was hardly consulted")
+			r.Require(r.Counter("transport_resets") >= 8 && r.Counter("forwarded_after_transport_reset") >= int64(n/20), "too few requests were relayed through a rebuilt endpoint transport")
 		}
 	})
+}
+
+// resetTransport does what controllers.GatewayHealthCheck does after three timed-out probes on a hung transport: it asks
+// the endpoint to rebuild its proxy transport. Every request relayed afterwards goes through the rebuilt one; the identity
+// the upstream is told must not depend on that history. Returns false when the watchdog expired.
+func resetTransport(r *vkit.R, tb *testbed, tg *target) bool {
+	ci, ok := tb.gw.Cluster(tg.host)
+	if !ok {
+		r.Inconclusive("cluster " + tg.host + " is not known to the gateway any more")
+		return false
+	}
+	ep, ok := ci.Endpoints.Load(tg.url)
+	if !ok {
+		r.Inconclusive("endpoint " + tg.url + " is not known to the gateway any more")
+		return false
+	}
+	if err := ep.ResetTransport(); err != nil {
+		r.Inconclusive("ResetTransport failed: " + err.Error())
+		return false
+	}
+	tg.resets++
+	r.Count("transport_resets", 1)
+	// closing the old transport may cancel a health probe that happened to be in flight and mark the endpoint
+	// unhealthy until the next probe: ask for one instead of waiting for the 5 s ticker
+	if !ep.IsReady() {
+		r.Count("transport_reset_needed_reprobe", 1)
+		ep.TriggerHealthCheck()
+		if !tb.gw.WaitReady(tg.host, tg.url, true, watchdog) {
+			r.Inconclusive("endpoint did not become ready again after a transport reset within the watchdog")
+			return false
+		}
+	}
+	return true
 }
 
 func runCase(r *vkit.R, tb *testbed, i int, g *vkit.Rand) {
 	c := genCase(tb, i, g)
 	tg := tb.targets[c.Target]
 	id := fmt.Sprintf("c02-%d", i)
+	// History: the first cluster of every gateway (and the TLS+h2 one) gets its endpoint's transport reset now and then,
+	// the second cluster never does (so that a defect that needs the reset keeps a signature of its own).
+	if c.Target != 1 && g.Chance(1.0/250) {
+		if !resetTransport(r, tb, tg) {
+			return
+		}
+	}
 	sc := &script{m: c.script}
 	tb.curMu.Lock()
 	tb.cur = sc
@@ -672,7 +719,7 @@ func runCase(r *vkit.R, tb *testbed, i int, g *vkit.Rand) {
 	r.Count("authorizer_calls", len(calls))
 
 	wit := func(extra map[string]interface{}) map[string]interface{} {
-		w := map[string]interface{}{"case": c, "wire_request_head": head, "authenticated": authn, "authorizer_calls": calls, "status": resp.Status, "response_body": fmt.Sprintf("%.300q", resp.Body)}
+		w := map[string]interface{}{"case": c, "transport_resets_of_target_endpoint": tg.resets, "wire_request_head": head, "authenticated": authn, "authorizer_calls": calls, "status": resp.Status, "response_body": fmt.Sprintf("%.300q", resp.Body)}
 		if resp.Err != nil {
 			w["client_error"] = resp.Err.Error()
 		}
@@ -778,6 +825,10 @@ func runCase(r *vkit.R, tb *testbed, i int, g *vkit.Rand) {
 	feat := c.Path
 	if tg.h2 != nil {
 		feat += "-h2"
+	}
+	if tg.resets > 0 {
+		feat += "/after-transport-reset"
+		r.Count("forwarded_after_transport_reset", 1)
 	}
 
 	switch {
